@@ -381,7 +381,11 @@ def r073(an, rep, enc: FunctionInfo):
     tagged_ret = any(isinstance(r.value, ast.Dict) for r in returns_of(ifs[0].body))
     bad = []
     lim = 2 ** 53 - 1
-    for v, want in [(lim, False), (lim + 1, True), (-lim, False), (-lim - 1, True), (0, False), (True, False), (10 ** 30, True)]:
+    from sa.feval import region_points
+    e0 = dict(env)
+    pts = region_points(test, e0, extra=(lim, -lim, 0, 10 ** 30, -(10 ** 30)))
+    for v in pts + [True, False]:
+        want = (v > lim or v < -lim) if not isinstance(v, bool) else False
         e = dict(env)
         e[p] = v
         try:
